@@ -573,7 +573,8 @@ Fixpoint new_round (fuel : nat) (c : ncfg) (n : node) (prev : option block) (lea
 Inductive event :=
 | EDeliver (m : msg)                      (* WorkerLoop: ToConsensusMessage + filter.HandleConsensusRawMessage *)
 | EElection (h v : N)                     (* main loop's trigger handling, then the worker's stale check + callback *)
-| ESync (prev : option block).            (* main loop's UpdateState handling, then worker.handleUpdateState *)
+| ESync (prev : option block)             (* main loop's UpdateState handling, then worker.handleUpdateState *)
+| EGarbage.                               (* content bytes that are none of the five kinds or that the readers panic on: dropped by parseConsensusMessage *)
 
 Definition set_maxsync (x : N) (n : node) : node :=
   {| n_h := n_h n; n_v := n_v n; n_wm := n_wm n; n_shut := n_shut n; n_maxsync := Some x; n_hasterm := n_hasterm n;
@@ -587,6 +588,7 @@ Definition step (c : ncfg) (n : node) (e : event) : node :=
   (* every main-loop iteration starts with GcOldContexts *)
   let n := cancel_older (n_h n, 0) n in
   match e with
+  | EGarbage => n
   | EDeliver m => filter_handle c next n m
   | EElection h v =>
       let n1 := cancel_older (h, wrap64 (v + 1)) n in
